@@ -88,8 +88,8 @@ def run(rep):
                 flag("C08/wrote-into-unnamed-package", "goderive ./%s wrote derived.gen.go into %s" % (p, others),
                      {"cmd": "goderive ./" + p, "files": runs.read_tree(os.path.join(src, p))})
         rep.cov["package_status_alone"] = dict(collections.Counter(status.values()))
-        ok = [p for p in pkgs if status[p] == "ok"]
-        rejected = [p for p in pkgs if status[p] == "rejected"]
+        ok = [p for p in pkgs if status[p] == "ok" and kind_of.get(p) != "flow-top"]
+        rejected = [p for p in pkgs if status[p] == "rejected" and kind_of.get(p) != "flow-top"]
         hung = [p for p in pkgs if status[p] in ("timeout", "crash")]
         if hung:
             rep.notes.append("packages on which goderive hangs or crashes (C09's business, excluded from byte comparison): %s" % hung)
@@ -197,12 +197,17 @@ def run(rep):
         if unsupported_spellings:
             rep.cov["spellings_not_accepted"] = dict(unsupported_spellings)
 
-        # ---- 4. a failing sibling must not change what the other packages get
+        # ---- 4. a failing sibling must not change what the other packages get; the run must fail, wherever the
+        # failing package stands among the arguments
         sib = collections.Counter()
         if rejected and len(ok) >= 2:
-            badp = rejected[0]
-            goodp = ok[:3]
-            sjobs = [(("failing-sibling", None, ["./" + goodp[0], "./" + badp] + ["./" + g for g in goodp[1:]], goodp, ()), i) for i in range(n_rep)]
+            badp = "bad" if "bad" in rejected else rejected[0]
+            goodp = [p for p in ok if kind_of.get(p) not in ("flow-base", "flow-top")][:3]
+            sjobs = []
+            for pos in range(len(goodp) + 1):
+                order = ["./" + g for g in goodp[:pos]] + ["./" + badp] + ["./" + g for g in goodp[pos:]]
+                sjobs += [(("failing-sibling", None, order, goodp, ()), i) for i in range(max(2, n_rep // 4))]
+            sjobs.append((("failing-sibling", None, ["ambig/" + g for g in goodp[:1]] + ["ambig/" + badp] + ["ambig/" + g for g in goodp[1:]], goodp, ()), 0))
             sres = runs.par(variant_run, sjobs)
             evaluations += len(sjobs)
             outcomes = set()
@@ -210,6 +215,12 @@ def run(rep):
                 written = tuple(sorted(p for p in goodp if r["sha"][p] != "absent"))
                 outcomes.add(written)
                 sib[",".join(written) or "none"] += 1
+                comparisons += 1
+                if r["rc"] == 0 and not r["timeout"]:
+                    flag("C08/failing-package-but-exit-0", "`goderive %s` exits 0 although package %s is rejected when named alone (%s): the exit status depends on "
+                         "where the failing package stands among the arguments" % (" ".join(v[2]), badp, norm_err(base[badp]["out"])[-160:]),
+                         {"cmd": "goderive " + " ".join(v[2]), "stderr": r["out"][-600:],
+                          "files": {p: runs.read_tree(os.path.join(src, p)) for p in goodp + [badp]}})
                 for p in goodp:
                     comparisons += 1
                     if r["sha"][p] not in ("absent", base[p]["sha"][p]):
@@ -218,11 +229,40 @@ def run(rep):
             rep.cov["failing_sibling_written_sets"] = dict(sib)
             if len(outcomes) > 1:
                 flag("C08/failing-sibling-partial-output-varies",
-                     "with one rejected package in the invocation, WHICH of the other packages get their derived.gen.go written differs from run to "
-                     "run (%s over %d runs of `goderive %s`): packages are processed in the iteration order of the loader's map "
-                     "(Program.InitialPackages) and the first error aborts the run" % (dict(sib), n_rep, " ".join(sjobs[0][0][2])),
+                     "with one rejected package in the invocation, WHICH of the other packages get their derived.gen.go written differs between runs / "
+                     "argument orders (%s over %d runs with the failing package in every position)" % (dict(sib), len(sjobs)),
                      {"cmd": "goderive " + " ".join(sjobs[0][0][2]), "written_sets": dict(sib),
                       "files": {p: runs.read_tree(os.path.join(src, p)) for p in goodp + [badp]}})
+
+        # ---- 5. cross-package flow from a clean state: a package whose call argument type is only known once the
+        # named package it imports has its derived.gen.go; every order and spelling of the two arguments
+        fb = [p for p in pkgs if kind_of.get(p) == "flow-base"]
+        ft = [p for p in pkgs if kind_of.get(p) == "flow-top"]
+        if fb and ft and status.get(fb[0]) == "ok":
+            b0, t0 = fb[0], ft[0]
+            fvars = [[x + b0, x + t0] for x in ("./", "ambig/")] + [[x + t0, x + b0] for x in ("./", "ambig/")] + \
+                    [["./" + t0, "ambig/" + b0], ["ambig/" + t0, "./" + b0], ["./" + b0, "ambig/" + t0], ["ambig/" + b0, "./" + t0]]
+            keep = tuple(q for q in pkgs if q not in (b0, t0) and kind_of.get(q) not in ("assignable-named-unnamed",))
+            fjobs = [(("flow-pair", None, a, [b0, t0], ()), i) for a in fvars for i in range(2)]
+            fjobs += [(("flow-pair-cwd", t0, ["../" + b0, "."], [b0, t0], ()), 0), (("flow-pair-cwd", b0, ["../" + t0, "."], [b0, t0], ()), 0)]
+            fres = runs.par(variant_run, fjobs)
+            evaluations += len(fjobs)
+            ref = fres[0]  # dependency first, relative paths
+            if ref["rc"] != 0:
+                flag("C08/flow-pair-rejected", "goderive %s fails from a clean state: %s" % (" ".join(fvars[0]), ref["out"][-300:]),
+                     {"cmd": "goderive " + " ".join(fvars[0]), "files": {p: runs.read_tree(os.path.join(src, p)) for p in (b0, t0)}})
+            for (v, i), r in zip(fjobs, fres):
+                for p in (b0, t0):
+                    comparisons += 1
+                    if r["sha"][p] != "absent":
+                        distinct.add((p, "flow:" + " ".join(v[2])))
+                    if r["sha"][p] != ref["sha"][p] or r["rc"] != ref["rc"]:
+                        flag("C08/bytes-differ:cross-package-flow" + ("-from-package-dir" if v[0] == "flow-pair-cwd" else ""),
+                             "from a clean state `%sgoderive %s` (exit %s) leaves %s/derived.gen.go %s, `goderive %s` (exit %s) leaves %s" % (
+                                 "cd %s && " % v[1] if v[1] else "", " ".join(v[2]), r["rc"], p, r["sha"][p][:12], " ".join(fvars[0]), ref["rc"], ref["sha"][p][:12]),
+                             {"cmd": "goderive " + " ".join(v[2]), "baseline_cmd": "goderive " + " ".join(fvars[0]), "package": p, "stderr": r["out"][-600:],
+                              "files": {q: runs.read_tree(os.path.join(src, q)) for q in (b0, t0)}})
+            rep.cov["flow_pair_runs"] = len(fjobs)
 
         rep.cov["evaluations"] = evaluations
         rep.cov["programs"] = len(pkgs)
